@@ -42,32 +42,40 @@ def register(reg):
                  ensures=[('property', f'result == (0 if len(self._input.line_cache) == 0 else {P} - self._input.line_cache[{P}].startpos)')])
 
     # C08/C12: lineinfo() -- the reported line, column and source line agree with each other and with the text
-    # (requires: the cache/index/text relation that TextLines.__init__ establishes: build_line_cache's proved
-    # postcondition, LineIndexInfo.block_index and ''.join(splitlines(True)) -- the last two are trusted)
-    CW = 'self._input.line_cache'
-    SZ = 'self._input.len'
-    wf = ['nl >= 1', f'len({CW}) == {SZ} + 1', 'len(self._input.line_index) == nl',
-          'all(self._input.line_index[k].line == k for k in range(0, nl))',
+    # (requires: the cache/index/text relation that the constructors establish: build_line_cache's proved
+    # postcondition, LineIndexInfo.block_index and ''.join(splitlines(True)) -- the last two are trusted).
+    # The same function exists three times (TextLinesCursor, BufferCursor, Buffer itself): one contract text, three views.
+    B = 'tatsu/input/buffer.py'
+    lineinfo_contracts(reg, f'{T}:TextLinesCursor.lineinfo', 'LCursor2', 'self._input.line_cache', 'self._input.line_index',
+                       'self._input.textstr', 'self._input.len')
+    lineinfo_contracts(reg, f'{B}:BufferCursor.lineinfo', 'BufCursor2', 'self.buffer.linecache', 'self.buffer.lineindex',
+                       'self.buffer.text', 'self.buffer.len')
+    lineinfo_contracts(reg, f'{B}:Buffer.lineinfo', 'BufOwn2', 'self.linecache', 'self.lineindex', 'self.text', 'self.len')
+
+
+def lineinfo_contracts(reg, key, selfsort, CW, IX, TXT, SZ):
+    wf = ['nl >= 1', f'len({CW}) == {SZ} + 1', f'len({IX}) == nl', f'len({TXT}) == {SZ}',
+          f'all({IX}[k].line == k for k in range(0, nl))',
           'starts[0] == 0', 'all(starts[k + 1] > starts[k] for k in range(0, nl))', f'{SZ} == starts[nl]',
           f'all(0 <= starts[k] and starts[k] <= {SZ} for k in range(0, nl + 1))',  # follows from the two before by induction
           f'all(0 <= lineof[p] and lineof[p] < nl and starts[lineof[p]] <= p and p < starts[lineof[p] + 1] for p in range(0, {SZ}))',
           f'all({CW}[p] == PosLine(starts[lineof[p]], lineof[p], starts[lineof[p] + 1] - starts[lineof[p]]) for p in range(0, {SZ}))',
-          f"terminated == (self._input.textstr[{SZ} - 1] in {{'\\r', '\\n'}})",
+          f"terminated == ({TXT}[{SZ} - 1] in {{'\\r', '\\n'}})",
           f'{CW}[{SZ}] == (PosLine({SZ}, nl, 0) if terminated else PosLine(starts[nl - 1], nl - 1, {SZ} - starts[nl - 1]))']
     for variant, psort, P in (('#pos', 'int', 'pos'), ('#none', 'None', 'self.pos')):
         req = [] if psort == 'None' else ['0 <= pos', f'pos <= {SZ}']
-        contract(reg, f'{T}:TextLinesCursor.lineinfo{variant}', ['C08', 'C12'], {'self': 'LCursor2', 'pos': psort}, ret='LineInfo', modifies=[],
+        contract(reg, f'{key}{variant}', ['C08', 'C12'], {'self': selfsort, 'pos': psort}, ret='LineInfo', modifies=[],
                  ghost={'starts': 'arr[int,int]', 'lineof': 'arr[int,int]', 'nl': 'int', 'terminated': 'bool'},
                  requires=req + wf, defaults={'pos': None},
                  ensures=[('property', '0 <= result.line and result.line < nl'),
                           ('property', 'result.start == starts[result.line] and result.end == starts[result.line + 1]'),
                           ('property', '0 <= result.col and result.col <= result.end - result.start'),
                           ('property', f'0 <= result.start and result.start <= result.end and result.end <= {SZ}'),
-                          ('property', 'result.text == self._input.textstr[result.start:result.end]'),
+                          ('property', f'result.text == {TXT}[result.start:result.end]'),
                           ('property', f'implies({P} < {SZ} or not terminated, result.start + result.col == {P})'),
                           ('property', f'implies({P} == {SZ} and terminated, result.start + result.col == {P})')])
     # the empty text: no cache, every field is the zero of its type
-    contract(reg, f'{T}:TextLinesCursor.lineinfo#empty', ['C08', 'C12'], {'self': 'LCursor2', 'pos': 'int'}, ret='LineInfo', modifies=[],
-             requires=[f'{SZ} == 0', f'len({CW}) == 0'], defaults={'pos': None},
+    contract(reg, f'{key}#empty', ['C08', 'C12'], {'self': selfsort, 'pos': 'int'}, ret='LineInfo', modifies=[],
+             requires=[f'{SZ} == 0', f'len({TXT}) == 0', f'len({CW}) == 0'], defaults={'pos': None},
              ensures=[('property', 'result.line == 0 and result.col == 0 and result.start == 0 and result.end == 0'),
                       ('property', "result.text == ''")])
